@@ -19,4 +19,20 @@ def parseFull (timeOk : Str → Bool) (s : Str) : FullResult :=
     | some (n, u, h) => .ok m str n u h
     | none => .crash "ValueError"      -- splitHostmask's tuple unpacking, outside the try-block
 
+/-- `drivers.parseMsg(s)`: `s.strip()`, empty → `None`, `MalformedIrcMsg` → logged and `None`
+(since the `fix:`), otherwise the message.  The outer `Option` is "an exception escapes". -/
+inductive DriverParse where
+  | msg (m : Msg) (str : Str) (nick user host : Str)
+  | none                     -- nothing delivered (blank or malformed line)
+  | crash (exc : String)
+deriving DecidableEq, Repr
+
+def driverParseMsg (timeOk : Str → Bool) (s : Str) : DriverParse :=
+  let s' := strip s
+  if s' = [] then .none else
+  match parseFull timeOk s' with
+  | .ok m str n u h => .msg m str n u h
+  | .malformed => .none
+  | .crash e => .crash e
+
 end C05
